@@ -1,7 +1,7 @@
 (* Properties/C07.v -- Parsers of document-supplied text never crash.
    Only statements, closed by `exact`, each followed by Print Assumptions.
 
-   The models (Css/Urls.v, Css/PageSel.v, Css/HtmlAttr.v, Css/SvgAttr.v) are
+   The models (Css/Urls.v, Css/PageSel.v, Css/HtmlAttr.v, Css/SvgAttr.v, Css/ColorMq.v, Css/W3cDate.v) are
    ports of the Go code in the result monad of Base/GoSem.v: every slice index,
    slice expression and explicit panic of the ported code is a `Panic site`,
    every loop runs on fuel.  `X_total` says: for ALL inputs the result is `Ok`
@@ -20,7 +20,8 @@
    coverage.tested_only_components. *)
 From Verif Require Import Base.GoSem Base.GoStrings Base.GoStringsProofs.
 From Verif Require Import Css.Urls Css.UrlsProofs Css.PageSel Css.PageSelProofs
-  Css.HtmlAttr Css.HtmlAttrProofs Css.SvgAttr Css.SvgAttrProofs Css.ColorMq Css.ColorMqProofs.
+  Css.HtmlAttr Css.HtmlAttrProofs Css.SvgAttr Css.SvgAttrProofs Css.ColorMq Css.ColorMqProofs
+  Css.W3cDate Css.W3cDateProofs.
 From Coq Require Import List ZArith NArith Bool.
 Import ListNotations.
 Open Scope Z_scope.
@@ -194,6 +195,37 @@ Theorem C07_import_media_total : forall prelude, exists r, import_media prelude 
 Proof. exact import_media_total. Qed.
 Print Assumptions C07_import_media_total.
 
+(* ------------------------------------------------------------------ W3C dates of <meta name=dcterms.created / dcterms.modified> *)
+(* utils.parseW3cDate (called by GetHtmlMetadata for every HTML document): the regular expression as a
+   recursive-descent recogniser, toInt with its explicit panic ("unexpected string for int"), the error returns.
+   Total on EVERY byte string: the panic of toInt is unreachable ... *)
+Theorem C07_parse_w3c_date_total : forall s, exists r, parse_w3c_date false s = Ok r.
+Proof. exact parse_w3c_date_total. Qed.
+Print Assumptions C07_parse_w3c_date_total.
+
+(* ... because of the digit-length bound of the captured groups: a year of exactly 4 digits, the other fields
+   absent or 2 digits, tzHour a sign and 2 digits (and minute / tzMinute present whenever hour / tzHour are:
+   the two "shouldn't be empty" error returns are dead code) ... *)
+Theorem C07_w3c_groups_bounded : forall s g, match_w3c false s = Some g -> wf_groups g.
+Proof. exact match_w3c_wf. Qed.
+Print Assumptions C07_w3c_groups_bounded.
+
+(* ... and strconv.Atoi cannot fail on a run of at most 18 digits (10^18 < 2^63) *)
+Theorem C07_to_int_total_bounded : forall s default,
+  forallb is_digit s = true -> (length s <= 18)%nat -> (s = [] -> default <> None) ->
+  exists v, to_int s default = Ok v.
+Proof. exact to_int_total_bounded. Qed.
+Print Assumptions C07_to_int_total_bounded.
+
+(* REFUTATION without the bound: with the year relaxed to \d{4,} the regular expression matches 20 nines, Atoi
+   overflows and toInt panics (site 830 = html.go:450), where the code as it is returns the "invalid date" error *)
+Theorem C07_parse_w3c_date_unbounded_year_refuted :
+  match_w3c true (repeat 57%N 20) = Some (mkG (repeat 57%N 20) [] [] [] [] [] [] []) /\
+  parse_w3c_date true (repeat 57%N 20) = Panic site_toint /\
+  parse_w3c_date false (repeat 57%N 20) = Ok None.
+Proof. exact parse_w3c_date_long_years_refuted. Qed.
+Print Assumptions C07_parse_w3c_date_unbounded_year_refuted.
+
 (* ------------------------------------------------------------------ the property, as far as it is a statement about models *)
 (* Every parser modelled here is total.  The full property text also covers the
    components modelled by C05/C06/C08/C14/C18/C19 (their own theorems) and the
@@ -215,7 +247,8 @@ Definition C07_modelled_parsers_total_statement : Prop :=
   (forall s, exists r, parse_font_weight s = Ok r) /\
   (forall t, exists r, parse_color t = Ok r) /\
   (forall t, exists r, parse_media_query t = Ok r) /\
-  (forall t, exists r, import_media t = Ok r).
+  (forall t, exists r, import_media t = Ok r) /\
+  (forall s, exists r, parse_w3c_date false s = Ok r).
 Theorem C07_modelled_parsers_total : C07_modelled_parsers_total_statement.
 Proof.
   exact (conj unquote_total (conj unescape_total (conj fetch_data_url_total
@@ -223,6 +256,6 @@ Proof.
         (conj font_size_attr_total (conj parse_preserve_aspect_ratio_total (conj parse_url_strip_total
         (conj new_painter_total (conj parse_value_total (conj parse_opacity_total
         (conj parse_font_weight_total (conj parse_color_total (conj parse_media_query_total
-        import_media_total))))))))))))))).
+        (conj import_media_total parse_w3c_date_total)))))))))))))))).
 Qed.
 Print Assumptions C07_modelled_parsers_total.
